@@ -260,6 +260,14 @@ def check_maps(ctx, tu, info):
                         for d in [n] + f.descendants(n):
                             if f.nodes[d]['cls'] == 'MemberExpr' and f.decl(d)['kind'] == 'field' and f.decl(d)['name'] == 'callbackListList':
                                 tested = d
+                            elif f.nodes[d]['cls'] == 'DeclRefExpr' and f.decl(d).get('kind') == 'var':
+                                # a local *reference* to the slot (`auto & slot = callbackListList[i]`): testing it reads the slot itself
+                                vd = f.var_decls().get(f.decl(d)['id'])
+                                vt = f.tu.type(vd['t']) if vd else None
+                                if vd and vd.get('init') and vt and vt.get('ref'):
+                                    for e in [vd['init']] + f.descendants(vd['init']):
+                                        if f.nodes[e]['cls'] == 'MemberExpr' and f.decl(e)['kind'] == 'field' and f.decl(e)['name'] == 'callbackListList':
+                                            tested = d
                         if tested is None:
                             continue
                         role = 'true' if neg else 'false'      # edge on which the slot is empty
